@@ -15,7 +15,8 @@ m.write('C17', 'Board-settings files are read back as the boards that were writt
  (P, 'ex_layout_ok', 'C17_pbn_example_layout', 'non-vacuity: a two-game CR LF layout with header, repeated blank lines, a repeated tag, extra tags and a table row'),
  (P, 'ex_layout_settings', 'C17_pbn_example_settings', None),
 ])
-m.write('C18', 'PBN export is read back by the PBN parser, one game per board.', IMP, '', [
+G = 'Proofs/PbnGen.v'; GC = 'Proofs/PbnGenCor.v'
+m.write('C18', 'PBN export is read back by the PBN parser, one game per board.', IMP.replace('Proofs.Pins.', 'Proofs.Pins Gen.PbnFns Proofs.PbnGen Proofs.PbnGenCor.'), '', [
  (P, 'write_line_le_255', 'C18_write_line_le_255', 'any text: every line written has at most 255 characters'),
  (P, 'write_line_ends_lines', 'C18_write_line_ends_lines', None),
  (P, 'write_line_keeps_text', 'C18_write_line_keeps_text', None),
@@ -25,6 +26,15 @@ m.write('C18', 'PBN export is read back by the PBN parser, one game per board.',
  (P, 'export_one_game_per_result', 'C18_separate_games', 'consecutive results are separate games'),
  (P, 'export_as_settings', 'C18_as_settings', 'deal, dealer, vulnerability and board number are recovered as board settings'),
  ('Proofs/Pins.v', 'pins_pbn', 'C18_regex_pins', None),
+ (G, 'g_write_board_result_eq', 'C18_generated_write_board_result_is_hand_model', 'write_board_result REGENERATED from the text of pbn_handler/writer.py on every run (harness/gen_pbnw.py) equals the hand model, for every result'),
+ (G, 'g_write_line_spec', 'C18_generated_write_line', 'write_line regenerated: the hand model, or the IndexError on the empty string'),
+ (G, 'g_write_tag_pair_eq', 'C18_generated_write_tag_pair', 'write_tag_pair regenerated: the hand model, or the assertion on the first letter of the tag'),
+ (G, 'g_write_header_eq', 'C18_generated_write_header', None),
+ (GC, 'g_write_file_eq', 'C18_generated_export_is_hand_model', None),
+ (GC, 'g_lines_le_255', 'C18_lines_le_255_generated', 'the property, for the regenerated writer'),
+ (GC, 'g_export_roundtrip', 'C18_roundtrip_generated', None),
+ (GC, 'g_export_one_game_per_result', 'C18_separate_games_generated', None),
+ (GC, 'g_export_as_settings', 'C18_as_settings_generated', None),
  (P, 'ex_results_ok', 'C18_example_results', 'non-vacuity: two results, one passed out'),
  (P, 'ex_export_read_back', 'C18_example_read_back', None),
  (P, 'ex_long_line', 'C18_example_long_line', None),
